@@ -86,6 +86,12 @@ func single(c dspace.Case, w *enum.Worker) {
 		}
 		ls := p.Layers()
 		for i, l := range ls {
+			// an input extended by thousands of filler bytes can decode into ~2000 two-byte
+			// layers; writing and re-decoding each of them over the rest is quadratic (minutes
+			// per case) and adds nothing after the first few: judge the first 24 and the last 8
+			if len(ls) > 32 && i >= 24 && i < len(ls)-8 {
+				continue
+			}
 			sl, ok := l.(gopacket.SerializableLayer)
 			if !ok {
 				continue
